@@ -78,9 +78,10 @@ func init() {
 			name := r.freshName(a[0].(Str).s)
 			r.nondets = append(r.nondets, NondetInfo{Name: name, Kind: "choose", W: 64, Max: n})
 			var k int
-			if r.concrete != nil {
+			if r.concrete != nil && r.concretePicks == nil {
 				k = int(r.concrete.Vars[name])
 			} else {
+				// (concrete replay consumes the recorded pick so that scheduler picks stay aligned)
 				k = r.pick("choose:"+name, n)
 			}
 			r.res.Assumptions["choice "+name] = true
